@@ -226,7 +226,7 @@ func TestC13Crash(t *testing.T) {
 		}
 		cmd.Wait()
 		// reopen what the dead process left behind
-		st, err := badgerstore.Open(badger.DefaultOptions(dbDir).WithTruncate(true).WithMaxCacheSize(1 << 20).WithLogger(nil))
+		st, err := badgerstore.Open(badger.DefaultOptions(dbDir).WithTruncate(true).WithMaxCacheSize(1 << 20).WithMaxTableSize(1 << 20).WithLogger(nil))
 		if err != nil {
 			rt.Fatalf("reopen after kill (acked %d of %d): %v", acked, n, err)
 		}
@@ -234,7 +234,7 @@ func TestC13Crash(t *testing.T) {
 		if slow := time.Since(caseStart); slow > 60*time.Second {
 			// "active within the last two minutes" is part of what is compared, and the model's clock starts only now:
 			// a case that a stalled machine stretched over a minute cannot be judged (seen once under extreme load)
-			st.Close()
+			closeStore(st)
 			rec.Count("crash:discarded-stalled-machine", 1)
 			return
 		}
@@ -245,7 +245,7 @@ func TestC13Crash(t *testing.T) {
 			r := so.Apply(model, ops[i], so.CoarseTime)
 			hist = append(hist, fmt.Sprintf("%s -> child: %q model: %q", ops[i], childErrs[i], r.Err))
 			if r.Err != childErrs[i] {
-				st.Close()
+				closeStore(st)
 				rt.Fatalf("operation %d %s: child got %q, contract model %q", i+1, ops[i], childErrs[i], r.Err)
 			}
 		}
@@ -276,7 +276,7 @@ func TestC13Crash(t *testing.T) {
 				}
 			}
 		}
-		st.Close()
+		closeStore(st)
 		if !match {
 			msg := fmt.Sprintf("after SIGKILL (acknowledged %d of %d operations, delay %s) the reopened store matches neither the state after %d operations nor after %d:\nvs %d ops: %v", acked, n, delay, acked, acked+1, acked, diffObservations("reopened store", got, wantA))
 			if wantB != nil {
@@ -711,7 +711,7 @@ func TestC13MigrationCrash(t *testing.T) {
 		nNonces := rapid.SampledFrom([]int{0, 3, 150, 300}).Draw(rt, "nonces")
 		version := rapid.SampledFrom([]int{0, 1, 1}).Draw(rt, "version")
 		// the child uses badger.DefaultOptions; populate with the same options so that table formats agree
-		st, err := badgerstore.Open(badger.DefaultOptions(db).WithTruncate(true).WithMaxCacheSize(1 << 20).WithLogger(nil).WithSyncWrites(false))
+		st, err := badgerstore.Open(badger.DefaultOptions(db).WithTruncate(true).WithMaxCacheSize(1 << 20).WithMaxTableSize(1 << 20).WithLogger(nil).WithSyncWrites(false))
 		if err != nil {
 			rt.Fatalf("open: %v", err)
 		}
@@ -785,7 +785,7 @@ func TestC13MigrationCrash(t *testing.T) {
 		default:
 			rt.Fatalf("database version is %d after a kill during the migration from %d", v, version)
 		}
-		st2, err := badgerstore.Open(badger.DefaultOptions(db).WithTruncate(true).WithMaxCacheSize(1 << 20).WithLogger(nil))
+		st2, err := badgerstore.Open(badger.DefaultOptions(db).WithTruncate(true).WithMaxCacheSize(1 << 20).WithMaxTableSize(1 << 20).WithLogger(nil))
 		if err != nil {
 			rt.Fatalf("Open after the kill: %v", err)
 		}
@@ -810,7 +810,7 @@ func nNoncesIn(m map[string]string) int {
 }
 
 func dumpKeysDefault(rt *rapid.T, dir string) map[string]string {
-	db, err := badger.Open(badger.DefaultOptions(dir).WithTruncate(true).WithMaxCacheSize(1 << 20).WithLogger(nil))
+	db, err := badger.Open(badger.DefaultOptions(dir).WithTruncate(true).WithMaxCacheSize(1 << 20).WithMaxTableSize(1 << 20).WithLogger(nil))
 	if err != nil {
 		rt.Fatalf("raw open: %v", err)
 	}
@@ -829,7 +829,7 @@ func dumpKeysDefault(rt *rapid.T, dir string) map[string]string {
 }
 
 func setRawVersionDefault(rt *rapid.T, dir string, version int) {
-	db, err := badger.Open(badger.DefaultOptions(dir).WithTruncate(true).WithMaxCacheSize(1 << 20).WithLogger(nil))
+	db, err := badger.Open(badger.DefaultOptions(dir).WithTruncate(true).WithMaxCacheSize(1 << 20).WithMaxTableSize(1 << 20).WithLogger(nil))
 	if err != nil {
 		rt.Fatalf("raw open: %v", err)
 	}
